@@ -9,6 +9,7 @@ CONSTANT NBs = {1}
 CONSTANT Ss = {2}
 CONSTANT Wrap = TRUE
 CONSTANT Guard = TRUE
+CONSTANT Walk = TRUE
 INIT Init
 NEXT Next
 CHECK_DEADLOCK FALSE
